@@ -13,9 +13,11 @@ Representation choices (DESIGN.md §2 row `Ty`):
   looks at (`[`, `]`, `!`) are ASCII, so `str::strip_prefix/strip_suffix(char)` on valid UTF-8 is the
   byte-level operation;
 * every `panic!`/`unimplemented!` the input can reach is the outcome `panic`:
-  `new_list_type` at max depth (base.rs:160), `from_type` past 30 levels (base.rs:270),
-  `is_valid_value` on `FieldValue::Enum` (base.rs:380).  The `unreachable!` of `from_type`
-  (base.rs:279) cannot be reached: the loop only exits on a `Named` base.
+  `new_list_type` at max depth (base.rs:160), `from_type` past 30 levels (base.rs:270).
+  The `unreachable!` of `from_type` (base.rs:279) cannot be reached: the loop only exits on a
+  `Named` base.  `is_valid_value` has no panic site: its `FieldValue::Enum` arm is `false`
+  (history: it was `unimplemented!("enum values are not currently supported")`, base.rs:380 —
+  findings F-14 / F-C10-2 / F-C19-1, repaired; `isValidValue` was `Outcome Bool` then).
 
 The second half of the file is the structural view `Shape` with `encode`/`decode`; the refinement
 lemmas (mask operation = structural operation for depth ≤ 30) are in `Proofs/Ty.lean`.
@@ -198,29 +200,25 @@ abbrev STRING : Bytes := [83, 116, 114, 105, 110, 103]
 abbrev BOOLEAN : Bytes := [66, 111, 111, 108, 101, 97, 110]
 
 mutual
-/-- `Type::is_valid_value`.  `FieldValue::Enum` hits `unimplemented!` — but only when the traversal
-reaches it: `Iterator::all` stops at the first `false`, and a list value against a non-list type is
-`false` without looking at the elements. -/
-def isValidValue (t : Ty) : Value → Outcome Bool
-  | .null => .ok t.nullable
-  | .int64 _ => .ok (!t.isList && t.base == INT)
-  | .uint64 _ => .ok (!t.isList && t.base == INT)
-  | .float64 _ => .ok (!t.isList && t.base == FLOAT)
-  | .string _ => .ok (!t.isList && t.base == STRING)
-  | .boolean _ => .ok (!t.isList && t.base == BOOLEAN)
+/-- `Type::is_valid_value`: a total `bool` function.  `FieldValue::Enum` is valid for no type
+(schemas cannot define enum types); a list value against a non-list type is `false` without looking
+at the elements. -/
+def isValidValue (t : Ty) : Value → Bool
+  | .null => t.nullable
+  | .int64 _ => !t.isList && t.base == INT
+  | .uint64 _ => !t.isList && t.base == INT
+  | .float64 _ => !t.isList && t.base == FLOAT
+  | .string _ => !t.isList && t.base == STRING
+  | .boolean _ => !t.isList && t.base == BOOLEAN
   | .list contents =>
     match t.asList with
     | some contentType => allValid contentType contents
-    | none => .ok false
-  | .enum _ => .panic
-/-- `contents.iter().all(|inner| content_type.is_valid_value(inner))` (short-circuiting). -/
-def allValid (contentType : Ty) : List Value → Outcome Bool
-  | [] => .ok true
-  | x :: xs =>
-    match isValidValue contentType x with
-    | .ok true => allValid contentType xs
-    | .ok false => .ok false
-    | .panic => .panic
+    | none => false
+  | .enum _ => false
+/-- `contents.iter().all(|inner| content_type.is_valid_value(inner))`. -/
+def allValid (contentType : Ty) : List Value → Bool
+  | [] => true
+  | x :: xs => isValidValue contentType x && allValid contentType xs
 end
 
 /-- `Type::is_orderable`: looks at the base name only. -/
@@ -429,23 +427,19 @@ def sub : Shape → Shape → Bool
 
 mutual
 /-- Structural `is_valid_value` for base name `b`. -/
-def valid (b : Bytes) : Shape → Value → Outcome Bool
-  | s, .null => .ok s.nullable
-  | s, .int64 _ => .ok (s.depth == 0 && b == INT)
-  | s, .uint64 _ => .ok (s.depth == 0 && b == INT)
-  | s, .float64 _ => .ok (s.depth == 0 && b == FLOAT)
-  | s, .string _ => .ok (s.depth == 0 && b == STRING)
-  | s, .boolean _ => .ok (s.depth == 0 && b == BOOLEAN)
+def valid (b : Bytes) : Shape → Value → Bool
+  | s, .null => s.nullable
+  | s, .int64 _ => s.depth == 0 && b == INT
+  | s, .uint64 _ => s.depth == 0 && b == INT
+  | s, .float64 _ => s.depth == 0 && b == FLOAT
+  | s, .string _ => s.depth == 0 && b == STRING
+  | s, .boolean _ => s.depth == 0 && b == BOOLEAN
   | list _ s, .list contents => validAll b s contents
-  | named _, .list _ => .ok false
-  | _, .enum _ => .panic
-def validAll (b : Bytes) (s : Shape) : List Value → Outcome Bool
-  | [] => .ok true
-  | x :: xs =>
-    match valid b s x with
-    | .ok true => validAll b s xs
-    | .ok false => .ok false
-    | .panic => .panic
+  | named _, .list _ => false
+  | _, .enum _ => false
+def validAll (b : Bytes) (s : Shape) : List Value → Bool
+  | [] => true
+  | x :: xs => valid b s x && validAll b s xs
 end
 
 /-- The `!` suffix of a level. -/
